@@ -690,14 +690,20 @@ class SV:
             return sb
         sq = self.q or ONE
         oq = o.q or ONE
+        # denominators are positive on this path: sign(self - o) = sign(N),
+        # N = self.p * oq - o.p * sq, kept in polynomial normal form
         if sq.eq(oq):
-            lhs, rhs = self.p, o.p
-            if lhs.eq(rhs):
-                return _CONCREL[rel](0, 0)
-            return SB(_ZREL[rel](lhs.z3(), rhs.z3()))
-        lz = self.p.z3() * oq.z3() if o.q is not None else self.p.z3()
-        rz = o.p.z3() * sq.z3() if self.q is not None else o.p.z3()
-        return SB(_ZREL[rel](lz, rz))
+            N = self.p.sub(o.p)
+        else:
+            N = self.p.mul(oq).sub(o.p.mul(sq))
+        if N.is_const():
+            if ENGINE is not None:
+                ENGINE.stats['poly_folded'] = ENGINE.stats.get('poly_folded', 0) + 1
+            return _CONCREL[rel](N.const_value(), 0)
+        r = engine().fold(N, rel)
+        if r is not None:
+            return r
+        return SB(_ZREL[rel](N.z3(), 0))
 
     def __eq__(self, o): return self._cmp(o, '==')
     def __ne__(self, o): return self._cmp(o, '!=')
@@ -835,6 +841,8 @@ class Engine:
         self.cache = {}
         self.facts = {}
         self.sqrt_cache = {}
+        self.input_terms = {}
+        self.short_timeout_ms = min(timeout_ms, 8000)
         self.fresh_counter = 0
         self.path_assumes = 0
         self.max_paths = max_paths
@@ -866,10 +874,14 @@ class Engine:
         return "%s!%d" % (base, self.fresh_counter)
 
     def real(self, name):
-        return SV(Poly.atom(ATOMS.get(z3.Real(name))), None, False)
+        t = z3.Real(name)
+        self.input_terms[name] = t
+        return SV(Poly.atom(ATOMS.get(t)), None, False)
 
     def int(self, name):
-        return SV(Poly.atom(ATOMS.get(z3.Int(name))), None, True)
+        t = z3.Int(name)
+        self.input_terms[name] = t
+        return SV(Poly.atom(ATOMS.get(t)), None, True)
 
     def bool(self, name):
         return SB(z3.Bool(name))
@@ -1107,6 +1119,7 @@ class Engine:
             self.cache = {}
             self.facts = {}
             self.path_assumes = 0
+            self.input_terms = {}
             try:
                 res = fn()
                 if self.pos < len(self.stack):
@@ -1143,9 +1156,48 @@ class Engine:
             phi = z3.BoolVal(False)
         if z3.is_true(phi):
             return None
-        if self._check(z3.Not(phi), kind='prop'):
+        neg = z3.Not(phi)
+        # 1. short attempt
+        r = self._check_raw(neg, self.short_timeout_ms)
+        if r == z3.sat:
+            return self.solver.model()
+        if r == z3.unsat:
+            return None
+        # 2. unknown: guided search for a counterexample -- fix the input atoms to
+        #    small rationals (the query becomes ground) ; a hit is a genuine model
+        import random
+        rnd = random.Random(12345)
+        terms = list(self.input_terms.values())
+        for k in range(40):
+            self.solver.push()
+            try:
+                for t in terms:
+                    if z3.is_int(t):
+                        self.solver.add(t == rnd.randint(-3, 3))
+                    else:
+                        self.solver.add(t == z3.RealVal("%d/%d" % (rnd.randint(-6, 6), rnd.choice((1, 1, 2, 3)))))
+                rr = self._check_raw(neg, 3000)
+                if rr == z3.sat:
+                    self.stats['guided_models'] = self.stats.get('guided_models', 0) + 1
+                    return self.solver.model()
+            finally:
+                self.solver.pop()
+        # 3. the full query with the long timeout
+        if self._check(neg, kind='prop'):
             return self.solver.model()
         return None
+
+    def _check_raw(self, assumption, timeout_ms):
+        self.solver.set('timeout', timeout_ms)
+        t0 = time.time()
+        try:
+            r = self.solver.check(assumption)
+        finally:
+            self.solver.set('timeout', self.timeout_ms)
+        self.stats['solver_s'] += time.time() - t0
+        self.stats['solver_calls'] += 1
+        self.stats['prop_queries'] += 1
+        return r
 
     def satisfiable(self, phi):
         """is pc and phi satisfiable? returns model or None"""
@@ -1195,3 +1247,40 @@ def _eval_poly(model, p):
             v = v * (_eval_term(model, ATOMS.terms[i]) ** e)
         tot = tot + v
     return _norm(tot)
+
+
+# --------------------------------------------------------------------------
+# affine decomposition (used by oracles: "the output is affine in these atoms")
+
+def atom_index(sv):
+    """atom index of an SV that is a plain atom, else None"""
+    if isinstance(sv, SV) and sv.q is None and len(sv.p.d) == 1:
+        (m, c), = sv.p.d.items()
+        if len(m) == 1 and m[0][1] == 1 and c == 1:
+            return m[0][0]
+    return None
+
+
+def linear_coeffs(x, atom_idxs):
+    """decompose x = c0 + sum_k c_k * atom_k  (coefficients free of the atoms).
+    returns (c0, {idx: c_k}) or None if x is not affine in the atoms.
+    x: python number or SV; atoms must not occur in the denominator."""
+    if not isinstance(x, SV):
+        return (x, {})
+    aset = set(atom_idxs)
+    if x.q is not None and (x.q.atoms() & aset):
+        return None
+    const = {}
+    lin = {i: {} for i in atom_idxs}
+    for m, c in x.p.d.items():
+        hit = [(i, e) for (i, e) in m if i in aset]
+        if not hit:
+            const[m] = c
+        elif len(hit) == 1 and hit[0][1] == 1:
+            rest = tuple(f for f in m if f[0] != hit[0][0])
+            lin[hit[0][0]][rest] = c
+        else:
+            return None
+    def mk(d):
+        return SV(Poly(d), x.q, False) if d else 0
+    return (mk(const), {i: mk(d) for i, d in lin.items()})
